@@ -11,10 +11,11 @@ pub mod c11;
 pub mod c12;
 pub mod c13;
 pub mod c14;
+pub mod c16;
 pub mod c18;
 
 pub fn all() -> Vec<&'static CheckDef> {
-    vec![&c02::DEF, &c06::DEF, &c07::DEF, &c09::DEF, &c10::DEF, &c11::DEF, &c12::DEF, &c13::DEF, &c14::DEF, &c18::DEF]
+    vec![&c02::DEF, &c06::DEF, &c07::DEF, &c09::DEF, &c10::DEF, &c11::DEF, &c12::DEF, &c13::DEF, &c14::DEF, &c16::DEF, &c18::DEF]
 }
 
 pub fn lookup(id: &str) -> Option<&'static CheckDef> {
